@@ -101,6 +101,15 @@ def gen_cases(rng, tier):
     cases += fills[:450 if tier == "quick" else 6000]
     # tiled pixmaps (wider than 8191, several rows): a span written with the wrong row stride lands outside the shape
     cases += [c for c in allfills if c[1][3] > 8000 and c[1][4] <= 40][:12 if tier == "quick" else 80]
+    # pixmaps tiled in both directions (8200 x 8200): what is drawn in one tile must not reappear in another
+    cases += [c for c in allfills if c[1][3] > 8000 and c[1][4] > 8000][:4 if tier == "quick" else 16]
+    # a mask of another size makes the call a no-op, on tiled pixmaps as well (mask_ops op 6: fill_path, fill_rect with a transform,
+    # thick and hairline strokes with a mask 9 columns / rows short)
+    for w_, h_, sd in [(8200, 4, 0), (8200, 4, 2), (4, 8200, 1), (4, 8200, 3), (40, 30, 0), (40, 30, 3), (8200, 8200, 0)][:7 if tier != "quick" else 6]:
+        cases.append(("mask_ops", [6, w_, h_, sd]))
+    # anti-aliased hairlines whose deltas are exactly / almost 512 px, on pixmaps with room on every side (C06's generator)
+    from . import c06 as _c06
+    cases += [c for c in _c06.gen_cases(rng, tier) if c[0] == "hair_px" and c[1][3] >= 510 and c[1][3] < 2000][:16 if tier == "quick" else 120]
     return cases
 
 
@@ -112,6 +121,11 @@ def oracle(suite, args, out):
         # (a painted pixel inside the bounding box but outside the shape is C02's / C03's subject, not a footprint violation)
         if len(o) >= 11 and o[8] > 0:
             return "a fill changed %d pixels outside the bounding box of the shape (first (%d,%d)): bytes outside the footprint" % (o[8], o[9], o[10])
+        return None
+    if suite == "mask_ops":
+        o = ints(out)
+        if len(o) >= 6 and o[1] > 0:
+            return "draw calls with a mask of another size changed %d of %d pixels of a %dx%d pixmap (documented: nothing happens)" % (o[1], o[0], args[1], args[2])
         return None
     if suite == "stroke_fp":
         o = ints(out)
@@ -140,6 +154,8 @@ def oracle(suite, args, out):
 
 
 def relation(suite, args, mo, io):
+    if suite == "mask_ops":
+        return mo.strip() == "-9"
     if suite == "stroke_fp":
         return mo.strip() == "-9"
     if suite == "hair_px":
@@ -150,6 +166,8 @@ def relation(suite, args, mo, io):
 
 
 def nontrivial_tag(suite, args, out):
+    if suite == "mask_ops":
+        return "mismatched-mask" if out.split()[:1] and out.split()[0].isdigit() and int(out.split()[0]) > 0 else None
     if suite == "stroke_fp":
         o = out.split()
         return "stroke-fp" if len(o) >= 4 and o[0].isdigit() and int(o[0]) > 0 else None
